@@ -60,7 +60,9 @@ var upperTokens = []string{`\S`, `\D`, `\W`, `\s`, "a", "|", "[", "]", ".", "é"
 	"\f", "\u00a0"}
 
 // additional tokens for C02 (pasting safety)
-var entryTokensC02 = []string{"\t", "\x01", "\x7f", `\x22`, `\Q"\E`, `\x{2019}`, `\x{fffd}`, `\(?-s:`, `\)`, `(?s:.)`, `(?i:a)`, "(?m)"}
+var entryTokensC02 = []string{"\t", "\x01", "\x7f", `\x22`, `\Q"\E`, `\x{2019}`, `\x{fffd}`, `\(?-s:`, `\)`, `(?s:.)`, `(?i:a)`, "(?m)",
+	// a flag group with an alternation inside another group, text with a plain dot behind it (the printer cannot hoist the flag)
+	`((?s:a.|b)c.)`, `(?:a(?s:b.|c)a.|b)`}
 
 var inlineFlag = regexp.MustCompile(`\(\?[a-zA-Z-]+[:)]`)
 
